@@ -427,6 +427,10 @@ func (c *cluster) close() {
 
 var errSync = errors.New("service did not become quiescent")
 
+// errNoReset: the service answers, but its dBFT context does not move to the height after its
+// ledger's tip (consensus.go handleChainBlock / dbft Reset never happened).
+var errNoReset = errors.New("service stays on a height its ledger has already decided")
+
 // sentinel builds the harness' barrier payload: a RecoveryRequest "from" validator 0 at height 0.
 func (n *node) sentinel() *npayload.Extensible {
 	data := []byte{0x40, 0, 0, 0, 0, 0, 0}  // type, block index (LE32) = 0, validator 0, view 0
@@ -443,6 +447,7 @@ func (n *node) sentinel() *npayload.Extensible {
 // chain's block notification when the ledger is ahead of the dBFT context.
 func (n *node) sync() error {
 	deadline := time.Now().Add(20 * time.Second)
+	resetBy := time.Now().Add(3 * time.Second)
 	for {
 		// drain stale barrier tokens
 		for {
@@ -466,8 +471,8 @@ func (n *node) sync() error {
 		if th == n.bc.BlockHeight()+1 {
 			return nil
 		}
-		if time.Now().After(deadline) {
-			return fmt.Errorf("%w: timer height %d, chain height %d", errSync, th, n.bc.BlockHeight())
+		if time.Now().After(resetBy) {
+			return fmt.Errorf("%w: dBFT height %d, ledger height %d", errNoReset, th, n.bc.BlockHeight())
 		}
 		time.Sleep(50 * time.Microsecond)
 	}
